@@ -765,6 +765,18 @@ func (fr *Frame) binop(st *State, x *ssa.BinOp) Term {
 		a = vc.box(a, x.X.Type())
 		sort = "Val"
 	}
+	if sort == "Slice" && (x.Op == token.EQL || x.Op == token.NEQ) {
+		// slices compare only against nil: the data pointer decides
+		other := a
+		if a == "nilslice" {
+			other = b
+		}
+		t := Eq(vc.sptr(other), "nilref")
+		if x.Op == token.NEQ {
+			t = Not(t)
+		}
+		return t
+	}
 	switch x.Op {
 	case token.EQL:
 		return Eq(a, b)
